@@ -24,6 +24,8 @@ def jvp_check(ctx, name, f, x, tol_fd, tol_model=None, model=None, cls=None, h=N
     rng = ctx.rng
     x = x.clone().detach().requires_grad_(True)
     try:
+        with torch.no_grad():          # a preview / logging call under no_grad must not change what the next call records (objects that cache under no_grad)
+            f(x)
         y = f(x)
     except Exception as e:
         ctx.violation('%s raised %r' % (name, e), {'entry': name}, {'entry': name, 'what': 'raises'})
